@@ -67,18 +67,23 @@ def exactness(ctx, rep, rid_prefix, directions, rids=None):
             continue
         counts[s.kind] += 1
         rid = rids[s.kind]
-        bad = [(d, v) for d, v in s.fails if d in directions or d == 'illformed']
+        # a rule that is skipped in some states leaves an open branch unsaturated: it matters wherever 'incomplete' does (not for soundness of 'valid')
+        bad = [(d, v) for d, v in s.fails if d in directions or d == 'illformed'] + ([('skipped', p_) for p_ in s.sch.problems] if 'incomplete' in directions else [])
         rep.instance(rid, ok=not bad,
                      sample=dict(logic=s.lg.name, rule=s.rc.name, schema=s.sch.show(), valuations=s.n,
                                  defined_at=ctx.m.floc(s.sch.fn)),
                      nontrivial=(s.lg.name, s.rc.name))
         rep.consult(ctx.m.floc(s.sch.fn))
         for d, v in bad:
-            rep.finding(rid, f'{rid}/{s.lg.name}/{s.rc.name}/{d}/{v}', ctx.m.floc(s.sch.fn),
+            vkey = v
+            if d == 'skipped':
+                vkey, v = v.split('|', 1)
+            rep.finding(rid, f'{rid}/{s.lg.name}/{s.rc.name}/{d}/{vkey}', ctx.m.floc(s.sch.fn),
                         f'{s.lg.name}:{s.rc.short}',
                         f'rule {s.rc.name} of {s.lg.name} is {d} at valuation {v}: '
                         + ('the node is satisfiable but no extension is' if d == 'unsound'
                            else 'an extension is satisfiable but the node is not' if d == 'incomplete'
+                           else 'the rule is not applied in some states' if d == 'skipped'
                            else 'the schema cannot be given a meaning (an item refers to a value that does not exist there)')
                         + f' [schema {s.sch.show()}]',
                         logic=s.lg.name, rule=s.rc.name, direction=d, valuation=v, schema=s.sch.show())
